@@ -59,7 +59,7 @@ func c08Check(c *Ctx, cs *c08Case, sample bool) {
 	mw := markdown.Wrap(t0)
 	if st := cs.st; st != nil {
 		cs.Mode = st.Note
-		b := spec.BuildStaged(t0, st.At, func() {
+		b := spec.BuildStagedN(t0, st.points(), func() {
 			applyAligns(t0, st.PreAligns)
 			mw.Render()
 		})
